@@ -16,6 +16,12 @@ inductive Out where
   | ptr (p : Option Nat)      -- `T*` of `try_*`: null or the value pointed to
   | ref (x : Nat)             -- `T&` of `unchecked_*`
   | rels (bs : List Bool)     -- == != < <= > >=
+  -- the same results for a call whose argument is an rvalue the caller still owns (`v.push_back(etl::move(t))`),
+  -- together with what the caller sees of `t` afterwards: `moved` = an element has been constructed from it
+  | unitArg (moved : Bool)
+  | itArg (off : Nat) (moved : Bool)
+  | ptrArg (p : Option Nat) (moved : Bool)
+  | refArg (x : Nat) (moved : Bool)
   deriving Repr, DecidableEq, Inhabited
 
 inductive Op where
@@ -54,7 +60,30 @@ inductive Op where
   | resizeValA (n i : Nat)          -- `resize(n, v[i])`
   | tryPushA (ov i : Nat)           -- inplace_vector: ov 0 `try_push_back(c[i])`, 2 `try_emplace_back(c[i])`
   | uncheckedA (ov i : Nat)         -- inplace_vector: ov 0 `unchecked_push_back(c[i])`, 2 `unchecked_emplace_back(c[i])`
+  -- the argument is an rvalue `etl::move(t)` of an object `t` (value `x`) that the caller looks at after the call
+  -- (Model.lean, "rvalue arguments the caller still owns"): the result says whether `t` has been moved from
+  | pushMv (ov x : Nat)             -- ov 1 `push_back(move(t))` / `stack::push(move(t))`, 3 `emplace_back(move(t))` / `stack::emplace(move(t))`
+  | insertMv (ov pos x : Nat)       -- ov 1 `insert(pos, move(t))`, 3 `emplace(pos, move(t))`
+  | tryPushMv (ov x : Nat)          -- inplace_vector: ov 1 `try_push_back(move(t))`, 3 `try_emplace_back(move(t))`
+  | uncheckedMv (ov x : Nat)        -- inplace_vector: ov 1 `unchecked_push_back(move(t))`, 3 `unchecked_emplace_back(move(t))`
   deriving Repr, Inhabited
+
+/-- what the caller sees of an rvalue argument after the call: `some true` moved from, `some false` untouched;
+    `none` for a call that has no such argument -/
+def Out.moved? : Out → Option Bool
+  | .unitArg m => some m
+  | .itArg _ m => some m
+  | .ptrArg _ m => some m
+  | .refArg _ m => some m
+  | _ => none
+
+/-- the operations whose argument is an rvalue the caller looks at afterwards -/
+def takesRvalue : Op → Bool
+  | .pushMv .. => true
+  | .insertMv .. => true
+  | .tryPushMv .. => true
+  | .uncheckedMv .. => true
+  | _ => false
 
 structure Sys where
   ty : Ty
@@ -76,6 +105,8 @@ def supports : Ty → Op → Bool
   | .sv, .unchecked .. => false
   | .sv, .tryPushA .. => false
   | .sv, .uncheckedA .. => false
+  | .sv, .tryPushMv .. => false
+  | .sv, .uncheckedMv .. => false
   | .sv, _ => true
   | .stk, .push .. => true
   | .stk, .pop => true
@@ -87,11 +118,14 @@ def supports : Ty → Op → Bool
   | .stk, .cmp _ => true
   | .stk, .dump => true
   | .stk, .pushTop _ => true
+  | .stk, .pushMv .. => true
   | .stk, _ => false
   | .ipv, .tryPush .. => true
   | .ipv, .unchecked .. => true
   | .ipv, .tryPushA .. => true
   | .ipv, .uncheckedA .. => true
+  | .ipv, .tryPushMv .. => true
+  | .ipv, .uncheckedMv .. => true
   | .ipv, .pop => true
   | .ipv, .clear => true
   | .ipv, .copyCtor _ => true
@@ -142,6 +176,12 @@ def step1 (cap : Nat) (kind : Kind) (op : Op) (d : V) : Except Err (V × Out) :=
     else do let r ← emplaceA cap d pos (.elem i); .ok (r.1, .it r.2)
   | .insertFillA pos n i => do let r ← insertFillA cap d pos n (.elem i); .ok (r.1, .it r.2)
   | .resizeValA n i => do let d1 ← resizeValA cap d n (.elem i); .ok (d1, .unit)
+  | .pushMv ov x =>
+    if ov = 3 then do let r ← emplaceBackRv cap d x; .ok (r.1, .unitArg r.2)
+    else do let r ← pushBackRv cap d x; .ok (r.1, .unitArg r.2)
+  | .insertMv ov pos x =>
+    if ov = 3 then do let r ← emplaceRvArg cap d pos x; .ok (r.1.1, .itArg r.1.2 r.2)
+    else do let r ← insertRvArg cap d pos x; .ok (r.1.1, .itArg r.1.2 r.2)
   | _ => .error (.pre "not a single-object member")
 
 /-- operations on object `k` alone, for `inplace_vector` -/
@@ -151,6 +191,8 @@ def step1Ipv (cap : Nat) (op : Op) (d : V) : Except Err (V × Out) :=
   | .unchecked _ x => do let r ← ipvUnchecked cap d x; .ok (r.1, .ref r.2)
   | .tryPushA _ i => do let r ← ipvTryA cap d (.elem i); .ok (r.1, .ptr r.2)
   | .uncheckedA _ i => do let r ← ipvUncheckedA cap d (.elem i); .ok (r.1, .ref r.2)
+  | .tryPushMv _ x => do let r ← ipvTryRv cap d x; .ok (r.1, .ptrArg r.2.1 r.2.2)
+  | .uncheckedMv _ x => do let r ← ipvUncheckedRv cap d x; .ok (r.1, .refArg r.2.1 r.2.2)
   | .pop => do let d1 ← ipvPop cap d; .ok (d1, .unit)
   | .clear => do let d1 ← ipvClear cap d; .ok (d1, .unit)
   | .dump => .ok (d, .unit)
@@ -241,6 +283,10 @@ def valid1 (cap : Nat) (op : Op) (d : V) : Bool :=
   | .resizeValA n i => n ≤ cap && i < d.length
   | .tryPushA _ i => i < d.length
   | .uncheckedA _ i => d.length < cap && i < d.length
+  | .pushMv _ _ => d.length < cap
+  | .insertMv _ pos _ => d.length < cap && pos ≤ d.length
+  | .tryPushMv _ _ => true
+  | .uncheckedMv _ _ => d.length < cap
   | _ => false
 
 def isBinary : Op → Option Nat
